@@ -1000,6 +1000,7 @@ def run(run):
             _share(run, 'c04', ['DETACH'], 'FREEDSLOT')        # a deleted slot that is never collected is later walked through its parent's child chain (shared with C04)
             _share(run, 'c12', ['NULSTOP', 'ADVANCEBOUND'], 'CONST')      # reading the text stays inside the caller's buffer (shared with C12)
             _share(run, 'c17', ['ZONESET'], 'CONST')         # the exclusion vector is walked with iterators that survive its own insertions (shared with C17)
+            _share(run, 'c19', ['REVERSEPAIR'], 'LOOPLIMIT')   # the slot chain stays a NULL-terminated list: every loop over next() ends (shared with C19)
             _share(run, 'c19', ['UNDO'], 'CONST')            # justification records and their pool (shared with C19)
         finally:
             run._sharing = False
